@@ -415,21 +415,21 @@ def eager_cases(draw, tier):
 
 
 core.register("C18", [
-    Facet("eager_parse", eager_cases, check_eager, n_quick=600,
-          shards_quick=2, rule="sentences with a hidden reduction to the "
+    Facet("eager_parse", eager_cases, check_eager, n_quick=1600,
+          shards_quick=4, rule="sentences with a hidden reduction to the "
           "target and random ones; a returned parse has the words in order "
           "followed by cups of adjacent (x, x.r) pairs; a parse is only "
           "returned when a reduction exists"),
-    Facet("brute_force", vocab_cases, check_brute_force, n_quick=60,
+    Facet("brute_force", vocab_cases, check_brute_force, n_quick=120,
           rule="vocabularies containing a grammatical sentence of length 2 "
           "(and a modifier, so that infinitely many exist): first 1-3 "
           "results"),
-    Facet("cfg", cfg_cases, check_cfg, n_quick=400, shards_quick=2,
+    Facet("cfg", cfg_cases, check_cfg, n_quick=1200, shards_quick=4,
           rule="generated productions; sentences are derivations of the "
           "start symbol, bounded in number and depth, distinct when asked"),
-    Facet("biclosed2rigid", rule_cases, check_rule, n_quick=600,
+    Facet("biclosed2rigid", rule_cases, check_rule, n_quick=1600,
           shards_quick=4, rule=RULE),
-    Facet("ccg_trees", tree_cases, check_tree, n_quick=300, shards_quick=2,
+    Facet("ccg_trees", tree_cases, check_tree, n_quick=900, shards_quick=2,
           rule="CCG trees (ba/fa/fc/other, nested) with category strings "
           "printed from generated biclosed types"),
 ], rule=RULE, assumptions=[
